@@ -145,6 +145,11 @@ def check_simplification(case, r: R):
     if N is None:
         return
     keep = [N[i].element for i in sorted(keep_ids)]
+    if case.get('twice'):
+        # (shares the 'twice' draw) equal copies instead of the very objects: elements are frozen value objects
+        import copy as _copy
+        keep = [_copy.copy(e) for e in keep]
+        r.cls('exemption-list-of-equal-copies')
     keep_before = list(keep)
     before = net_snapshot(N)
     with r.lib(f'{op}'):
